@@ -37,7 +37,7 @@ KEYWORD_ROWS = {   # rows that are keywords of the vendor's own syntax elsewhere
     "nokia": ["configure", "exit", "info"], "juniper": ["configure", "exit", "top"], "ribbon": ["configure", "exit"],
     "huawei": ["return", "system-view"], "h3c": ["return"], "pc": ["exit", "configure"], "routeros": [],
     # IOS-XR drops rows ENDING with its policy terminators; rows merely starting with those words are ordinary lines
-    "iosxr": ["end-policy-map", "endif-marker x", "end-set-legacy knob"],
+    "iosxr": ["end-policy-map", "endif-marker x", "end-set-legacy knob", "description uplink endif", "remark see end-policy"],
     "cisco": ["endif-marker x"], "arista": ["end-policy-map"],
 }
 
